@@ -341,6 +341,27 @@ EnterSolWait(s, series, cont) ==
               !.cont = cont, !.deadline = s.now + ConfirmTO,
               !.ocb = Append(@, MkCb(s.now, "info", "enter_sol_wait", <<series.ecsn>>))]
 
+\* ---- controls: two object sets.  "a" = one CROB at index 1 (handler answers SUCCESS),
+\*      "b" = one CROB at index 2 (handler answers NOT_SUPPORTED to select)
+CtlIx(ob) == IF ob = "a" THEN 1 ELSE 2
+SelStatus(ob) == IF ob = "a" THEN 0 ELSE 4
+CtlObj(ob, st) == [g |-> 12, v |-> 1, ix |-> CtlIx(ob), ty |-> "", ev |-> FALSE, val |-> "",
+                   fl |-> -1, tm |-> "", tq |-> "", st |-> st]
+\* callback arguments: index, control code, count, on-time, off-time (, operate type 1 sbo 2 do 3 dona)
+CtlCb(s, n, ob, op) == MkCb(s.now, "ctl", n, <<CtlIx(ob), 3, 1, 100, 200>> \o (IF op = 0 THEN <<>> ELSE <<op>>))
+CtlTx(s, n, ob, op) == <<MkCb(s.now, "ctl", "begin", <<>>), CtlCb(s, n, ob, op), MkCb(s.now, "ctl", "end", <<>>)>>
+CtlResp(q, ob, st) == [EmptyResp(q.seq, [NoIin EXCEPT !.param = (st = 4)]) EXCEPT !.body = <<CtlObj(ob, st)>>]
+NoReply == [NoResp EXCEPT !.has = FALSE]
+
+\* SelectState::match_operate
+MatchOperate(s, q) ==
+    IF ~s.select.has THEN 2
+    ELSE IF S16(s.select.seq + 1) # q.seq THEN 2
+    ELSE IF s.select.fid + 1 # q.id THEN 2
+    ELSE IF s.select.hash # q.ob THEN 2
+    ELSE IF s.now - s.select.t > SelectTO THEN 1
+    ELSE 0
+
 \* handle_non_read for the functions modelled here
 HandleNonRead(s, q) ==
     CASE q.f = "delay" ->
@@ -352,7 +373,54 @@ HandleNonRead(s, q) ==
               THEN [st |-> s, resp |-> EmptyResp(q.seq, [NoIin EXCEPT !.nofn = TRUE])]
               ELSE [st |-> [s EXCEPT !.enabled = IF q.f = "enable" THEN @ \cup q.cl ELSE @ \ q.cl],
                     resp |-> EmptyResp(q.seq, NoIin)]
+      [] q.f = "write_rst" ->
+            [st |-> [s EXCEPT !.restart = FALSE,
+                              !.ocb = Append(@, MkCb(s.now, "info", "clear_restart_iin", <<>>))],
+             resp |-> EmptyResp(q.seq, NoIin)]
+      [] q.f = "select" ->
+            LET st == SelStatus(q.ob)
+            IN [st |-> [s EXCEPT !.ocb = @ \o CtlTx(s, "select", q.ob, 0),
+                                 !.select = IF st = 0
+                                              THEN [has |-> TRUE, seq |-> q.seq, fid |-> q.id, t |-> s.now,
+                                                    hash |-> q.ob]
+                                              ELSE @],
+                resp |-> CtlResp(q, q.ob, st)]
+      [] q.f = "operate" ->
+            LET st == MatchOperate(s, q)
+            IN IF st = 0
+                 THEN [st |-> [s EXCEPT !.ocb = @ \o CtlTx(s, "operate", q.ob, 1)], resp |-> CtlResp(q, q.ob, 0)]
+                 ELSE [st |-> s, resp |-> CtlResp(q, q.ob, st)]
+      [] q.f = "dop" ->
+            [st |-> [s EXCEPT !.ocb = @ \o CtlTx(s, "operate", q.ob, 2)], resp |-> CtlResp(q, q.ob, 0)]
+      [] q.f = "dopnr" ->
+            [st |-> [s EXCEPT !.ocb = @ \o CtlTx(s, "operate", q.ob, 3)], resp |-> NoReply]
       [] OTHER -> [st |-> s, resp |-> EmptyResp(q.seq, [NoIin EXCEPT !.nofn = TRUE])]
+
+\* write the reply of a handler, if it has one
+Reply(h) == IF h.resp.has THEN WriteSolicited(h.st, h.resp, TRUE) ELSE [st |-> h.st, resp |-> h.resp]
+
+\* process_broadcast: latch the confirm mode, run the few functions allowed by broadcast, never reply
+BcMode(dst) == CASE dst = "BC_OPT" -> "opt" [] dst = "BC_MAN" -> "man" [] OTHER -> "nr"
+ProcessBroadcast(s, q) ==
+    LET s1 == [s EXCEPT !.lastBc = BcMode(q.dst)]
+        done(st, act) == [st EXCEPT !.ocb = Append(@, [MkCb(s.now, "info", "broadcast", <<q.fc>>) EXCEPT !.s = act])]
+    IN CASE q.bad = "badobj" -> done(s1, "bad_headers")
+         [] q.f \in {"write_rst", "dopnr", "enable", "disable"} ->
+               done(HandleNonRead(s1, q).st, "processed")
+         [] OTHER -> done(s1, "unsupported_function")
+
+\* TransportRequest::Error (header-level rejection: unknown function code, ...): answered with
+\* IIN2.0 when the sequence number is known.  DEV_ErrorReplyIgnoresAddressing: the code applies
+\* neither the master-address filter nor the broadcast rule to these fragments.
+IsHdrError(q) == q.bad = "unkfn"
+Foreign(q) == q.src # "M"
+IsBc(q) == q.dst # "U"
+ErrorVisible(q) == "ErrorReplyIgnoresAddressing" \in DEV \/ (~Foreign(q) /\ ~IsBc(q))
+WriteErrorResponse(s, q) ==
+    LET w == WriteSolicited(s, EmptyResp(q.seq, [NoIin EXCEPT !.nofn = TRUE]), TRUE)
+    IN [w.st EXCEPT !.devs = IF Foreign(q) \/ IsBc(q) THEN @ \cup {"ErrorReplyIgnoresAddressing"} ELSE @]
+\* pop_request: a parsed request from another master is dropped before the session sees it
+Dropped(q) == (Foreign(q) /\ ~IsHdrError(q)) \/ (IsHdrError(q) /\ ~ErrorVisible(q))
 
 IsRepeat(s, q) == s.last.has /\ s.last.seq = q.seq /\ s.last.hash = q.hash
 
@@ -361,11 +429,22 @@ FromIdle(s) ==
     IF s.inbox = <<>> THEN [s EXCEPT !.pc = "After1"]
     ELSE
     LET q  == Head(s.inbox)
-        s0 == [s EXCEPT !.inbox = Tail(@),
-                        !.ocb = Append(@, MkCb(s.now, "info", "request_from_idle",
-                                               <<q.seq, q.fc>>))]
+        sx == [s EXCEPT !.inbox = Tail(@)]
+        s0 == [sx EXCEPT !.ocb = Append(@, MkCb(s.now, "info", "request_from_idle", <<q.seq, q.fc>>))]
     IN
+    IF Dropped(q) THEN [sx EXCEPT !.pc = "After1"]
+    ELSE IF IsHdrError(q) THEN
+        LET s1 == WriteErrorResponse(sx, q) IN IF s1.pc = "Dead" THEN s1 ELSE [s1 EXCEPT !.pc = "After1"]
+    ELSE
     CASE q.f \in {"confirm", "uconfirm"} -> [s0 EXCEPT !.pc = "After1"]
+      [] IsBc(q) -> [ProcessBroadcast(s0, q) EXCEPT !.pc = "After1"]
+      [] q.bad = "badobj" ->
+            LET w == WriteSolicited(s0, EmptyResp(q.seq, [NoIin EXCEPT !.unk = TRUE]), TRUE)
+                s1 == [w.st EXCEPT !.last = [has |-> TRUE, seq |-> q.seq, hash |-> q.hash, resp |-> w.resp]]
+            IN IF w.st.pc = "Dead" THEN w.st
+               ELSE IF w.resp.con      \* confirmation forced by a confirm-mandatory broadcast
+                 THEN EnterSolWait(s1, [ecsn |-> q.seq, fin |-> TRUE], "After1")
+                 ELSE [s1 EXCEPT !.pc = "After1"]
       [] q.f = "read" ->
             \* NewRead and RepeatRead are both answered afresh from idle
             LET sel == DbSelectHeaders(s0, q.hs)
@@ -380,27 +459,32 @@ FromIdle(s) ==
                ELSE [s1 EXCEPT !.pc = "After1"]
       [] OTHER ->
             IF IsRepeat(s0, q) THEN
-                \* RepeatNonRead: echo the stored response without executing
-                \* (DEV_AnyRepeatRebasesSelect lives in the control model, see OutstationCtl)
-                \* write_solicited is used by the code here: the stored header is refreshed with the
-                \* current IIN, the body is whatever the buffer holds
+                \* RepeatNonRead: echo the stored response without executing.
+                \* A pending SELECT is re-based so that its own retransmission does not break the pair;
+                \* DEV_AnyRepeatRebasesSelect: the code re-bases on the repeat of *any* non-READ request
+                LET rebase == s0.select.has /\ (q.f = "select" \/ "AnyRepeatRebasesSelect" \in DEV)
+                    s1 == IF rebase
+                            THEN [s0 EXCEPT !.select.fid = q.id,
+                                            !.devs = IF q.f # "select" THEN @ \cup {"AnyRepeatRebasesSelect"} ELSE @]
+                            ELSE s0
+                IN
                 \* DEV_IdleRepeatRefreshesIin: from idle the code sends the echo through write_solicited,
                 \* which ORs the current IIN into the stored header (and stores the result)
-                IF ~s0.last.resp.has THEN [s0 EXCEPT !.pc = "After1"]
+                IF ~s1.last.resp.has THEN [s1 EXCEPT !.pc = "After1"]
                 ELSE IF "IdleRepeatRefreshesIin" \notin DEV
-                  THEN [RepeatSolicited(s0, s0.last.resp) EXCEPT !.pc = "After1"]
-                ELSE LET w == WriteSolicited(s0, s0.last.resp, FALSE)
-                         fired == w.resp.iin # s0.last.resp.iin
+                  THEN [RepeatSolicited(s1, s1.last.resp) EXCEPT !.pc = "After1"]
+                ELSE LET w == WriteSolicited(s1, s1.last.resp, FALSE)
+                         fired == w.resp.iin # s1.last.resp.iin
                      IN IF w.st.pc = "Dead" THEN w.st
                         ELSE [w.st EXCEPT !.pc = "After1", !.last.resp = w.resp,
                                           !.devs = IF fired THEN @ \cup {"IdleRepeatRefreshesIin"} ELSE @]
             ELSE
                 LET h  == HandleNonRead(s0, q)
-                    w  == WriteSolicited(h.st, h.resp, TRUE)
+                    w  == Reply(h)
                     s1 == [w.st EXCEPT !.last = [has |-> TRUE, seq |-> q.seq, hash |-> q.hash,
                                                  resp |-> w.resp]]
                 IN IF w.st.pc = "Dead" THEN w.st
-                   ELSE IF w.resp.con
+                   ELSE IF w.resp.has /\ w.resp.con
                      THEN EnterSolWait(s1, [ecsn |-> q.seq, fin |-> TRUE], "After1")
                      ELSE [s1 EXCEPT !.pc = "After1"]
 
@@ -463,6 +547,9 @@ UnsolWaitRx(s) ==
     LET q  == Head(s.inbox)
         s0 == [s EXCEPT !.inbox = Tail(@)]
     IN
+    IF Dropped(q) THEN s0
+    ELSE IF IsHdrError(q) THEN WriteErrorResponse([s0 EXCEPT !.deferred = NoDef], q)
+    ELSE
     CASE q.f = "uconfirm" ->
             IF q.seq = s.uresp.seq
               THEN UnsolDone([s0 EXCEPT !.lastBc = "none",
@@ -471,6 +558,10 @@ UnsolWaitRx(s) ==
               ELSE s0
       [] q.f = "confirm" ->
             IF s0.lastBc = "man" THEN [s0 EXCEPT !.lastBc = "none"] ELSE s0
+      [] IsBc(q) -> ProcessBroadcast([s0 EXCEPT !.deferred = NoDef], q)
+      [] q.bad = "badobj" ->
+            WriteSolicited([s0 EXCEPT !.deferred = NoDef],
+                           EmptyResp(q.seq, [NoIin EXCEPT !.unk = TRUE]), TRUE).st
       [] q.f = "read" ->
             [s0 EXCEPT !.deferred = [has |-> TRUE, seq |-> q.seq, hash |-> q.hash, hs |-> q.hs]]
       [] OTHER ->
@@ -479,7 +570,7 @@ UnsolWaitRx(s) ==
                 IN [s1 EXCEPT !.deferred = NoDef]
             ELSE
                 LET h  == HandleNonRead([s0 EXCEPT !.deferred = NoDef], q)
-                    w  == WriteSolicited(h.st, h.resp, TRUE)
+                    w  == Reply(h)
                     s1 == [w.st EXCEPT !.last = [has |-> TRUE, seq |-> q.seq, hash |-> q.hash,
                                                  resp |-> w.resp]]
                 IN IF w.st.pc = "Dead" THEN w.st
@@ -503,6 +594,12 @@ UnsolWaitTimeout(s) ==
 SolWaitRx(s) ==
     LET q  == Head(s.inbox)
     IN
+    IF Dropped(q) THEN [s EXCEPT !.inbox = Tail(@)]
+    ELSE IF IsHdrError(q) \/ IsBc(q) \/ q.bad = "badobj" THEN
+            \* NewRequest: the fragment is retained and handled from idle
+            [DbReset(s) EXCEPT !.pc = s.cont,
+                               !.ocb = Append(@, MkCb(s.now, "info", "sol_wait_new_request", <<>>))]
+    ELSE
     CASE q.f = "confirm" /\ q.seq = s.series.ecsn ->
             LET s0 == [s EXCEPT !.inbox = Tail(@), !.lastBc = "none",
                                 !.ocb = Append(@, MkCb(s.now, "info", "sol_confirmed", <<q.seq>>))]
@@ -597,12 +694,18 @@ Advance(s, target) ==
 (* stimuli.  A (resolved) input is a record in the scenario alphabet:          *)
 (*   [k |-> "conn"] [k |-> "cut"] [k |-> "adv", dt] [k |-> "upd", p]          *)
 (*   [k |-> "read", seq, hs, rep]   hs: header tokens [n |-> c0|c1|c2|c3, lim]    *)
-(*   [k |-> "req", f, seq, cl, rep] f: delay | enable | disable               *)
+(*   [k |-> "req", f, seq, cl, rep (, ob, bad, src, dst)]                      *)
+(*        f: delay | enable | disable | write_rst | select | operate | dop |  *)
+(*           dopnr | unkfn;  ob: control object set a | b;  bad: "" | badobj  *)
+(*           | unkfn;  src: M | X;  dst: U | BC_OPT | BC_MAN | BC_NR          *)
 (*   [k |-> "conf", uns, seq]                                                 *)
 (* rep = byte-identical repetition of the previous request fragment          *)
 
 FcOf(f) == CASE f = "read" -> 1 [] f = "delay" -> 23 [] f = "enable" -> 20 [] f = "disable" -> 21
-             [] OTHER -> 0
+             [] f = "write_rst" -> 2 [] f = "select" -> 3 [] f = "operate" -> 4 [] f = "dop" -> 5
+             [] f = "dopnr" -> 6 [] f = "unkfn" -> 112 [] OTHER -> 0
+
+Fld(in, name, dflt) == IF name \in DOMAIN in THEN in[name] ELSE dflt
 
 \* SessionState::reset + transport reset on disconnect.
 \* DEV_DisconnectKeepsWritten: the code does not return the events of a fragment that was awaiting
@@ -629,21 +732,26 @@ Inject(s, in) ==
                 r   == DbInsert([s EXCEPT !.nupd = n, !.cur[in.p] = val], in.p, val, UpdTm(n))
             IN [r.st EXCEPT !.changed = TRUE]
       [] in.k \in {"read", "req"} ->
+            \* the fragment: function, sequence, headers / classes / control object set, malformation
+            \* class; addressing (src, dst) is a property of the link frames that carry it
             LET f    == IF in.k = "read" THEN "read" ELSE in.f
                 rep  == in.rep /\ s.mlast.k # "none"
                 body == IF rep THEN s.mlast
                         ELSE [k |-> f, seq |-> in.seq,
                               hs |-> IF in.k = "read" THEN in.hs ELSE <<>>,
-                              cl |-> IF in.k = "req" THEN in.cl ELSE {}]
+                              cl |-> IF in.k = "req" THEN in.cl ELSE {},
+                              ob |-> Fld(in, "ob", ""), bad |-> Fld(in, "bad", "")]
                 i    == Intern(s, body)
                 q    == [f |-> body.k, fc |-> FcOf(body.k), seq |-> body.seq, hash |-> i.id,
-                         hs |-> body.hs, cl |-> body.cl]
+                         hs |-> body.hs, cl |-> body.cl, ob |-> body.ob, bad |-> body.bad,
+                         src |-> Fld(in, "src", "M"), dst |-> Fld(in, "dst", "U"), id |-> s.fid]
             IN IF s.pc \in {"Down", "Dead"} THEN s
                ELSE [i.st EXCEPT !.inbox = Append(@, q), !.fid = @ + 1, !.mseq = body.seq,
                                  !.mlast = body]
       [] in.k = "conf" ->
             LET q == [f |-> IF in.uns THEN "uconfirm" ELSE "confirm", fc |-> 0, seq |-> in.seq,
-                      hash |-> 0, hs |-> <<>>, cl |-> {}]
+                      hash |-> 0, hs |-> <<>>, cl |-> {}, ob |-> "", bad |-> "", src |-> "M", dst |-> "U",
+                      id |-> s.fid]
             IN IF s.pc \in {"Down", "Dead"} THEN s
                ELSE [s EXCEPT !.inbox = Append(@, q), !.fid = @ + 1]
       [] OTHER -> s
